@@ -1,6 +1,7 @@
 package main
 
 import (
+	"strconv"
 	"archive/zip"
 	"bytes"
 	"compress/flate"
@@ -206,8 +207,40 @@ func c19Empty(c *runCtx) {
 	}
 }
 
+// packages in which a large stored part (a thumbnail, embedded media) stands between the bookkeeping parts and the
+// marker: examined whole, the walk must still reach the marker however far away the next local header is.  Judged here
+// (a quarter of a megabyte is too much for the extracted model's unary arithmetic).
+func c19BigEntry(c *runCtx) {
+	kinds := []struct{ marker, want string }{{"word/document.xml", "application/vnd.openxmlformats-officedocument.wordprocessingml.document"},
+		{"xl/workbook.xml", "application/vnd.openxmlformats-officedocument.spreadsheetml.sheet"},
+		{"ppt/presentation.xml", "application/vnd.openxmlformats-officedocument.presentationml.presentation"}}
+	for i, k := range kinds {
+		for _, size := range []int{70 << 10, 100 << 10, 260 << 10} {
+			big := make([]byte, size)
+			for j := range big {
+				big[j] = byte('a' + j%23)
+			}
+			es := []zspec{{name: "[Content_Types].xml", body: []byte("<Types/>")}, {name: "docProps/thumbnail.jpeg", body: big, noDesc: true}, {name: k.marker, body: []byte("<x/>")}}
+			a := writeZip(es)
+			if !c.mine(a[:64], []byte("big-entry"), []byte{byte(i)}, []byte(strconv.Itoa(size))) {
+				continue
+			}
+			m, pan := detectAt(a, 0)
+			head := "PANIC"
+			if pan == nil && m != nil {
+				head = bareType(m.String())
+			}
+			c.stats.note("big-entry", append([]byte{byte(i)}, []byte(strconv.Itoa(size))...), len(a), true)
+			if head != k.want {
+				c.propfail("C19", fmt.Sprintf("OOXML package examined whole (limit 0) whose second part is a stored entry of %d bytes and whose third part is %s reported as %s, not %s", size, k.marker, head, k.want))
+			}
+		}
+	}
+}
+
 func runC19(c *runCtx) {
 	c19Empty(c)
+	c19BigEntry(c)
 	r := c.rng
 	bookkeeping := []string{"_rels/.rels", "docProps/app.xml", "docProps/core.xml", "customXml/item1.xml", "[trash]/0000.dat", "docProps/", "customXml/_rels/item1.xml.rels"}
 	markers := map[string][]string{
